@@ -151,6 +151,19 @@ def requestToDnsMsgC (unpack : Bytes → Option Msg) (method : String) (dnsVals 
     (chunks : List Bytes) (ra ca : Option Bytes) : Option Msg :=
   ((unpackInputC method dnsVals chunks).bind unpack).map (setClientSubnet ra ca)
 
+/-- one DoH request, as values -/
+structure DohReq where
+  method : String
+  dnsVals : Option (List Bytes)
+  chunks : List Bytes
+  ra : Option Bytes
+  ca : Option Bytes
+
+/-- conversion is a pure function of the request: a batch of requests (conversions that overlap in time, messages
+    held until their upstream exchange) is converted element by element, with no state carried over -/
+def convertBatch (unpack : Bytes → Option Msg) (reqs : List DohReq) : List (Option Msg) :=
+  reqs.map fun r => requestToDnsMsgC unpack r.method r.dnsVals r.chunks r.ra r.ca
+
 /-- the code before the C56 family fix: `if cip.To16() != nil` -/
 def familyOfOld (cip : Bytes) : Nat × Nat := if (to16 cip).isSome then (2, 128) else (1, 32)
 
